@@ -75,6 +75,7 @@ type Fault struct {
 	File     int    `json:"file"`
 	Off      int    `json:"off"`
 	WithData bool   `json:"with_data,omitempty"` // EIO: error returned together with the preceding bytes
+	Once     bool   `json:"once,omitempty"`      // EIO: the reader reports the error once; every later Read reports end of file
 	ErrKind  string `json:"err_kind,omitempty"`  // EIO: which error value the reader fails with ("" = EIO path error)
 	How      string `json:"how,omitempty"`       // CORRUPT: replace | delete | dup
 	Byte     int    `json:"byte,omitempty"`      // CORRUPT replace: new byte
@@ -251,6 +252,12 @@ func (r *simReader) Read(p []byte) (int, error) {
 	f := &run.c.Files[r.idx]
 	if r.sticky != nil {
 		run.probes["read_after_end"]++
+		if r.eio && run.c.Fault.Once && r.sticky != io.EOF {
+			// a reader that forgets its error: it failed once, now it says end of file
+			run.probes["read_after_forgotten_error"]++
+			run.log.add('R', 0, "READ f=%d off=%d asked=%d given=0 err=EOF (the error was reported once)", r.idx, r.pos, len(p))
+			return 0, io.EOF
+		}
 		run.log.add('R', 0, "READ f=%d off=%d asked=%d given=0 err=%v (sticky)", r.idx, r.pos, len(p), r.sticky)
 		return 0, r.sticky
 	}
